@@ -297,6 +297,36 @@ def chain_shard(shard):
     return p
 
 
+def fault_neighbour_shard(shard):
+    """A faulting instruction with independent register-writing / storing / printing instructions directly in front of it
+    and behind it: at the fault both modes must show the same registers, memory and output."""
+    seed, part, parts = shard
+    p = Partial()
+    r1, r2, r3 = alpha.regs_for_seed(seed)
+    faults = [("lw", 9, 0, 0, 0), ("sw", 0, 0, r1, 8), ("lb", 9, 25, 0, -1), ("sh", 0, 25, r2, -2), ("lw", 9, 26, 0, 0), ("ecall", 0, 0, 0, 0)]
+    before = [("addi", 8, 0, 0, 5), ("lw", 8, r3, 0, 0), ("mul", 8, r3, r3, 0), ("sw", 0, r3, r3, 4), ("lui", 8, 0, 0, 7), ("addi", 17, 0, 0, 0)]
+    after = [("addi", 7, 0, 0, 9), ("sw", 0, r3, r3, 8), ("addi", 17, 0, 0, 1)]
+    k = 0
+    for f in faults:
+        for b1 in before:
+            for b2 in before:
+                for a1 in after:
+                    k += 1
+                    if k % parts != part:
+                        continue
+                    prog = [b1, b2, f, a1]
+                    regs = {r1: 3, r2: 4, r3: BASE, 25: BASE, 26: 0x3FFC, 17: 5 if f[0] == "ecall" else 1, 10: 7}
+                    pm = {4 * i: x for i, x in enumerate(prog)}
+                    one, bad = compare_modes(pm, regs, {BASE: 12}, 12)
+                    p.evaluations += 1
+                    if one.err is not None:
+                        p.nontrivial += 1
+                        p.counters["fault-with-independent-neighbours"] += 1
+                    for fl, d in bad:
+                        p.violation(dict(oracle="five-vs-single", field=fl), case_of(pm, regs, {BASE: 12}, 12, 0), f"[{rv.prog_text(prog)}]: {d}", size=(4, k))
+    return p
+
+
 def program_shards(seed, big, L, nstates, steps):
     n = len(alpha.hazard_alphabet(seed, big))
     if L >= 4:
@@ -330,6 +360,10 @@ def run(ctx):
     t0 = time.time()
     part = pmap(chain_shard, [(seed, i, 32) for i in range(32)])
     ctx.space("producer-consumer-chains", part, t0)
+    t0 = time.time()
+    part = pmap(fault_neighbour_shard, [(seed, i, 16) for i in range(16)])
+    ctx.space("faults-with-independent-neighbours", part, t0)
+    ctx.require("fault-with-independent-neighbours")
     steps = 24 if ctx.quick else 40
     nstates = 2 if ctx.quick else 4
     plan = [(False, L) for L in range(1, (4 if ctx.quick else 5) + 1)]
